@@ -3,6 +3,7 @@ package c20
 import (
 	"errors"
 	"fmt"
+	"reflect"
 	"runtime"
 	"sort"
 	"strings"
@@ -104,6 +105,17 @@ func TestRaces(t *testing.T) {
 				sc.yields[n] = rapid.IntRange(0, 10).Draw(t, "yield")
 			}
 			comps = append(comps, sc)
+		}
+		// a few components that only carry configuration points (value / prop / prefix tags of every flavour): the tag
+		// scanners visit them in parallel with everything else
+		for i := rapid.IntRange(0, 4).Draw(t, "ncfgcomps"); i > 0; i-- {
+			var fs []reflect.StructField
+			for j := 0; j < 6; j++ {
+				k := rapid.SampledFrom(kit.DecoyKinds()).Draw(t, "cfgfield")
+				fs = append(fs, reflect.StructField{Name: fmt.Sprintf("C%d", j), Type: k.Type, Tag: reflect.StructTag(k.Tag)})
+			}
+			fs = append(fs, reflect.StructField{Name: fmt.Sprintf("Mark%d", i), Type: reflect.TypeOf(0)})
+			comps = append(comps, reflect.New(reflect.StructOf(fs)).Interface())
 		}
 		nc := rapid.IntRange(0, 4).Draw(t, "nclosers")
 		failingClosers := 0
